@@ -21,6 +21,8 @@ structure NodeSlot where
   immResolved : List Nat := []
   recent : List (Nat × Option MItem) := []
   boot : List (Nat × Nat) := []
+  tobs : List Nat := []
+  extraEv : List String := []
 
 structure DState where
   closest : ClosestNodes := { target := ⟨[]⟩ }
@@ -51,6 +53,10 @@ structure DState where
   /-- callers of `bootstrapped()` and the stage they are in: 0 waits for the first `Info`, 1 for the
       `find_node` of the own id, 2 for the second `Info` -/
   boot : List (Nat × Nat) := []
+  /-- callers of `to_bootstrap()`: their `Info` message is a placeholder whose pick-up is the moment the
+      list is taken; `extraEv` holds what was taken until the next flush -/
+  tobs : List Nat := []
+  extraEv : List String := []
   outSeen : Nat := 0
   -- mnet stream: the other nodes of the case (the current one is loaded into the fields above)
   multi : Bool := false
@@ -390,6 +396,7 @@ def facade (st : DState) (evs : List Event) : DState × List String :=
       if concurrency && st.immCallers.contains (c + 1000000) then (st, acc.2 ++ [s!"c{c}:panic"])
       else (st, acc.2 ++ [s!"c{c}:{showPutErr e}"])
     | .info c i =>
+      if st.tobs.contains c then ({ st with tobs := st.tobs.filter (· != c) }, acc.2) else
       match st.boot.find? (·.1 == c) with
       | some (_, 0) =>
         ({ st with boot := (c, 1) :: st.boot.filter (·.1 != c),
@@ -407,8 +414,9 @@ def nodeFlush (st : DState) (a : Actor) : DState × String :=
     | some (k, tid) => (k, tid) :: m.filter (·.1 != k)
     | none => m) st.nreqs
   let (st, evs) := facade st a.events
+  let evs := evs ++ st.extraEv
   let a := { a with out := [], events := [] }
-  ({ st with actor := some a, nreqs := nreqs },
+  ({ st with actor := some a, nreqs := nreqs, extraEv := [] },
    s!"sent=[{" | ".intercalate (sortStrings (lines.map (·.1)))}] ev=[{" | ".intercalate (sortStrings evs)}]")
 
 def nodeEnv (st : DState) : Env :=
@@ -478,7 +486,14 @@ def nodeStep (st : DState) (a : Actor) (dgram : Option (Message × Addr)) : DSta
   let (msg, rest) := match st.apiQ with
     | m :: rest => (some m, rest)
     | [] => (none, [])
-  ({ st with apiQ := rest }, a.step (nodeEnv st) dgram msg)
+  -- `to_bootstrap()` is answered from the state at pick-up, before the maintenance of this iteration
+  let extra := match msg with
+    | some (.info c) =>
+      if st.tobs.contains c then
+        [s!"c{c}:bootstrap:{",".intercalate (sortStrings (((a.observed (nodeEnv st) dgram msg).toBootstrap st.now).map showAddr))}"]
+      else []
+    | _ => []
+  ({ st with apiQ := rest, extraEv := st.extraEv ++ extra }, a.step (nodeEnv st) dgram msg)
 
 
 /-- create the model node described by `mode= boot= ip= pub= seed= caps=` -/
@@ -538,6 +553,7 @@ def step3 (st : DState) (toks : List String) : DState × String :=
   | "api" :: c :: call :: rest =>
     (match (c.drop 1).toString.toNat?, st.actor with
      | some c, some _ =>
+       if call == "to_bootstrap" then ({ st with apiQ := st.apiQ ++ [.info c], tobs := c :: st.tobs }, "ok") else
        (match parseApi c call rest with
         | some (m, isImm) =>
           -- callers of the facades that treat a concurrency error as unreachable (put_immutable,
@@ -609,14 +625,16 @@ def saveSlot (st : DState) (i : Nat) : DState :=
   match st.actor with
   | some a =>
     let slot : NodeSlot := { actor := a, nodeAddr := st.nodeAddr, nreqs := st.nreqs, apiQ := st.apiQ,
-                             immCallers := st.immCallers, immResolved := st.immResolved, recent := st.recent, boot := st.boot }
+                             immCallers := st.immCallers, immResolved := st.immResolved, recent := st.recent, boot := st.boot,
+                             tobs := st.tobs, extraEv := st.extraEv }
     { st with slots := (i, slot) :: st.slots.filter (·.1 != i), actor := none }
   | none => st
 
 def loadSlot (st : DState) (i : Nat) : Option DState :=
   (st.slots.find? (·.1 == i)).map fun p =>
     { st with actor := some p.2.actor, nodeAddr := p.2.nodeAddr, nreqs := p.2.nreqs, apiQ := p.2.apiQ,
-              immCallers := p.2.immCallers, immResolved := p.2.immResolved, recent := p.2.recent, boot := p.2.boot }
+              immCallers := p.2.immCallers, immResolved := p.2.immResolved, recent := p.2.recent, boot := p.2.boot,
+              tobs := p.2.tobs, extraEv := p.2.extraEv }
 
 /-- mnet stream: several model nodes, ops prefixed with the node index -/
 def step4 (st : DState) (toks : List String) : DState × String :=
@@ -627,7 +645,7 @@ def step4 (st : DState) (toks : List String) : DState × String :=
        if i != st.slots.length then (st, "bad-op") else
        (match mkNodeActor rest st.now with
         | some (a, addr) =>
-          let st1 : DState := { st with actor := some a, nodeAddr := addr, nreqs := [], apiQ := [], immCallers := [], immResolved := [], recent := [], boot := [] }
+          let st1 : DState := { st with actor := some a, nodeAddr := addr, nreqs := [], apiQ := [], immCallers := [], immResolved := [], recent := [], boot := [], tobs := [], extraEv := [] }
           let (st2, out) := step3 st1 ["init"]
           (saveSlot st2 i, out)
         | none => (st, "bad-op"))
